@@ -31,7 +31,9 @@
                          the nearest f64 (ties to even); from_json casts back with saturation (open by design)
    and, only to show that the theorems are not vacuous (sensitivity configs; none of these is in the code):
      ObjNullDropsRest, DropLastElem, KeyIgnoresRename, RenameMustBeFirst (only the first attribute is looked at),
-     TupleAsObject, NoneOmitted, VecNoneDropped (None elements of a Vec<Option<T>> skipped), AllowDupKeys.
+     TupleAsObject, NoneOmitted, VecNoneDropped (None elements of a Vec<Option<T>> skipped), AllowDupKeys,
+     OptInnerFirst (Option<T>::from_json lets T read the value before looking for null: a T that accepts null - a
+     named struct whose members are all optional - turns None into Some(all None)).
 
    Representation.  TLC cannot compare values of different shapes, so every universe is ONE record shape:
      JSON value  [t, s, b, f, k, c]  t in null|bool|num|str|arr|obj ; numbers are sign s, magnitude bits b
@@ -403,6 +405,10 @@ RECURSIVE FromJI(_, _, _), FromJD(_, _, _)
 FromJI(j, ty, P) ==
   IF ty.w # <<>> THEN
      IF Head(ty.w) = "Opt" THEN
+          IF "OptInnerFirst" \in Dev            \* deviation: T::from_json sees the value first, null only as a fallback
+          THEN LET r == FromJI(j, Inner(ty), P) IN
+               IF r.ok THEN ROk(VSome(r.v)) ELSE IF j.t = "null" THEN ROk(VNone) ELSE RErr
+          ELSE
           IF j.t = "null" THEN ROk(VNone)
           ELSE LET r == FromJI(j, Inner(ty), P) IN IF r.ok THEN ROk(VSome(r.v)) ELSE RErr
      ELSE IF j.t # "arr" THEN RErr
@@ -529,7 +535,11 @@ Lib == <<
   Decl("N", "named", "derive", <<Field("x", FALSE, "", "doc", Ty("Int", "u64", <<"Opt">>)),
                                  Field("y", TRUE, "the \"y\"", "after", Ty("Ref", "E", <<"Vec">>))>>),
   Decl("M", "named", "map",    <<Field("p", TRUE, "p p", "doc", Ty("Ref", "P", <<>>)),
-                                 Field("e", TRUE, "e", "", Ty("Ref", "E", <<"Opt">>))>>)
+                                 Field("e", TRUE, "e", "", Ty("Ref", "E", <<"Opt">>))>>),
+  \* every member optional: the generated from_json reads a missing key as null, so this type also reads `null`
+  \* (as the value with every member None) - Option<O> must still see the null first
+  Decl("O", "named", "derive", <<Field("o", FALSE, "", "", Ty("Int", "i8", <<"Opt">>)),
+                                 Field("q", TRUE, "q q", "", Ty("Str", "", <<"Opt">>))>>)
 >>
 Refs(d) == { d.fields[i].ty.a : i \in { h \in 1..Len(d.fields) : d.fields[h].ty.base = "Ref" } }
 LibRefs(names) == names \cup UNION { Refs(Lookup(Lib, nm)) : nm \in names }
